@@ -308,8 +308,23 @@ type cstate struct {
 }
 
 func newCState(rm *protocol.ResolutionModel, parent *cstate) *cstate {
-	return &cstate{rm: rm, digest: digestJSON(rm), parent: parent}
+	cs := &cstate{rm: rm, digest: digestJSON(rm), parent: parent}
+
+	heldMu.Lock()
+	if len(heldStates) < 40000 {
+		heldStates = append(heldStates, cs)
+	}
+	heldMu.Unlock()
+
+	return cs
 }
+
+// every state a call handed out is held until the end of the run and digested again then: what a later call on a
+// neighbouring state does must not reach it (slices with spare capacity, maps handed on)
+var (
+	heldMu     sync.Mutex
+	heldStates []*cstate
+)
 
 // stepResult is what one real Apply call did.
 type stepResult struct {
@@ -795,6 +810,21 @@ func applierReplay(args []string) {
 
 	close(lines)
 	wg.Wait()
+
+	changedLater := 0
+
+	heldMu.Lock()
+	for _, cs := range heldStates {
+		if cs.rm != nil && digestJSON(cs.rm) != cs.digest && changedLater < 3 {
+			changedLater++
+			col.report(mismatch{Kind: "input-mutated", Key: fmt.Sprintf("input-mutated:result-changed-later:%d", changedLater),
+				Detail: "a state handed out by an earlier Apply call reads differently at the end of the run: a later call wrote into memory it shares",
+				Expected: cs.digest, Actual: generic(cs.rm)})
+		}
+	}
+
+	col.sum.Extra["states_held_and_digested_again"] = len(heldStates)
+	heldMu.Unlock()
 
 	col.sum.Extra["accepted"] = accepted
 	col.sum.Extra["refused"] = refused
